@@ -1,7 +1,8 @@
 """C09 - macros, string variables and Rhythm blocks expand to exactly their text.
 Theorems: props/C09.v - replace_all is THE left-to-right replacement; subst_args = simultaneous replacement of "#?k" under
 stated side conditions (five refuted witnesses outside them); the TValue token executes the tokens of its text (exact at
-token level, `_partial` for call sites between balanced token lists); rhythm_expand = the documented character automaton;
+token level; `_partial`: call sites between balanced token lists, and anywhere inside nested loops of quiet tokens - the
+lexer-side compositionality is not a theorem); rhythm_expand = the documented character automaton;
 the built-in macro texts / rhythm letters of mml_def.rs equal command.md (H excluded by name, shown to differ).
 Correspondence: `compile_core` (model) vs `compile_lex` (implementation) on every source generated here.
 Oracle on the implementation = the law itself, byte for byte (`compile_lex`):
@@ -19,7 +20,7 @@ COQ_TARGET = "props/C09.v"
 THEOREMS = ["C09_replace_all_spec", "C09_replaced_functional", "C09_contains_occurs", "C09_subst_spec", "C09_subst_int_args_inert",
             "C09_subst_arg_with_placeholder_refuted", "C09_subst_ten_arguments_refuted", "C09_subst_arg_ending_hash_refuted",
             "C09_subst_body_double_hash_refuted", "C09_subst_body_hash_q_hash_refuted",
-            "C09_macro_inline", "C09_macro_step_general", "C09_exec_depth_mono", "C09_macro_inline_seq_partial", "C09_toks_of_flatten",
+            "C09_macro_inline", "C09_macro_step_general", "C09_exec_depth_mono", "C09_macro_inline_seq_partial", "C09_macro_inline_loops_partial", "C09_toks_of_flatten",
             "C09_rhythm", "C09_rhythm_redefine", "C09_rhythm_last_wins",
             "C09_builtin_macros", "C09_builtin_macro_names", "C09_builtin_macros_complete",
             "C09_rhythm_letters", "C09_rhythm_letter_H_differs", "C09_rhythm_letters_undocumented"]
